@@ -156,3 +156,80 @@ package data
 //@   ensures [C01.compose-header] dest.Dims == dims && dest.OriginalDims == nd.OriginalDims && len(dest.Offset) == len(nd.Offset) && len(dest.Step) == len(nd.Step)
 //@   ensures [C01.compose-wf] forall(k, 0, len(nd.OffsetStep), dest.Offset[k] == nd.Offset[k] && dest.Step[k] == nd.Step[k] * ite(step == nil, 1, step[k]) && dest.OffsetStep[k] == dest.Offset[k]*dest.Step[k])
 //@   ensures [C01.parent-untouched] nd.Start == old(nd.Start) && nd.Dims == old(nd.Dims) && nd.OffsetStep == old(nd.OffsetStep) && forall(k, 0, len(nd.OffsetStep), nd.OffsetStep[k] == old(nd.OffsetStep[k]))
+
+// =====================================================================
+// L2: Go-backed arrays nd{t} (C01, C02)
+// A view holds no data: reads and writes go to Impl at address
+//   Start + sum_k loc[k]*OffsetStep[k]
+// and a slice shares its parent's Impl.
+// =====================================================================
+
+//@ func (*nd{t}).Get(nd, loc) returns (r)
+//@   safety C01
+//@   requires len(loc) <= len(nd.OffsetStep)
+//@   requires 0 <= nd.Start + idot(loc, nd.OffsetStep, len(loc)) && nd.Start + idot(loc, nd.OffsetStep, len(loc)) < len(nd.Impl)
+//@   assigns nothing
+//@   ensures [C01.get-address] r == nd.Impl[nd.Start + idot(loc, nd.OffsetStep, len(loc))]
+
+//@ func (*nd{t}).Set(nd, loc, val)
+//@   safety C01
+//@   requires len(loc) <= len(nd.OffsetStep)
+//@   requires 0 <= nd.Start + idot(loc, nd.OffsetStep, len(loc)) && nd.Start + idot(loc, nd.OffsetStep, len(loc)) < len(nd.Impl)
+//@   assigns nd.Impl[*]
+//@   ensures [C01.set-footprint] nd.Impl[nd.Start + idot(loc, nd.OffsetStep, len(loc))] == val && forall(p, 0, len(nd.Impl), implies(p != nd.Start + idot(loc, nd.OffsetStep, len(loc)), nd.Impl[p] == old(nd.Impl[p])))
+//@   ensures [C01.set-header-untouched] nd.Start == old(nd.Start) && nd.OffsetStep == old(nd.OffsetStep) && nd.Dims == old(nd.Dims) && nd.Impl == old(nd.Impl)
+
+//@ func (*nd{t}).Slice(nd, loc, dims, step) returns (r)
+//@   safety C01
+//@   requires len(nd.Offset) == len(nd.OffsetStep) && len(nd.Step) == len(nd.OffsetStep) && len(loc) <= len(nd.OffsetStep)
+//@   requires step == nil || len(step) >= len(nd.OffsetStep)
+//@   requires forall(k, 0, len(nd.OffsetStep), nd.OffsetStep[k] == nd.Offset[k]*nd.Step[k])
+//@   fresh r
+//@   assigns nothing
+//@   ensures [C01.slice-shares] as(r, nd{t}).Impl == nd.Impl
+//@   ensures [C01.slice-start] as(r, nd{t}).Start == nd.Start + idot(loc, nd.OffsetStep, len(loc))
+//@   ensures [C01.slice-stride] len(as(r, nd{t}).OffsetStep) == len(nd.OffsetStep) && forall(k, 0, len(nd.OffsetStep), as(r, nd{t}).OffsetStep[k] == nd.OffsetStep[k] * ite(step == nil, 1, step[k]))
+//@   ensures [C01.slice-header] as(r, nd{t}).Dims == dims && as(r, nd{t}).OriginalDims == nd.OriginalDims && len(as(r, nd{t}).Offset) == len(nd.Offset) && len(as(r, nd{t}).Step) == len(nd.Step)
+//@   ensures [C01.slice-wf] forall(k, 0, len(nd.OffsetStep), as(r, nd{t}).Offset[k] == nd.Offset[k] && as(r, nd{t}).Step[k] == nd.Step[k] * ite(step == nil, 1, step[k]) && as(r, nd{t}).OffsetStep[k] == as(r, nd{t}).Offset[k]*as(r, nd{t}).Step[k])
+
+//@ func (*nd{t}).Set1(nd, loc, val)
+//@   safety C01
+//@   requires len(nd.OffsetStep) >= 1
+//@   requires 0 <= nd.Start + loc*nd.OffsetStep[0] && nd.Start + loc*nd.OffsetStep[0] < len(nd.Impl)
+//@   assigns nd.Impl[*]
+//@   ensures [C01.set1-footprint] nd.Impl[nd.Start + loc*nd.OffsetStep[0]] == val && forall(p, 0, len(nd.Impl), implies(p != nd.Start + loc*nd.OffsetStep[0], nd.Impl[p] == old(nd.Impl[p])))
+
+//@ func (*nd{t}).Get1(nd, loc) returns (r)
+//@   safety C01
+//@   requires len(nd.Dims) == 1 && len(nd.OffsetStep) >= 1
+//@   requires 0 <= nd.Start + loc*nd.OffsetStep[0] && nd.Start + loc*nd.OffsetStep[0] < len(nd.Impl)
+//@   assigns nothing
+//@   ensures [C01.get1-address] r == nd.Impl[nd.Start + loc*nd.OffsetStep[0]]
+
+//@ func (*nd{t}).Set2(nd, loc1, loc2, val)
+//@   safety C01
+//@   requires len(nd.OffsetStep) >= 2
+//@   requires 0 <= nd.Start + loc1*nd.OffsetStep[0] + loc2*nd.OffsetStep[1] && nd.Start + loc1*nd.OffsetStep[0] + loc2*nd.OffsetStep[1] < len(nd.Impl)
+//@   assigns nd.Impl[*]
+//@   ensures [C01.set2-footprint] nd.Impl[nd.Start + loc1*nd.OffsetStep[0] + loc2*nd.OffsetStep[1]] == val && forall(p, 0, len(nd.Impl), implies(p != nd.Start + loc1*nd.OffsetStep[0] + loc2*nd.OffsetStep[1], nd.Impl[p] == old(nd.Impl[p])))
+
+//@ func (*nd{t}).Get2(nd, loc1, loc2) returns (r)
+//@   safety C01
+//@   requires len(nd.OffsetStep) >= 2
+//@   requires 0 <= nd.Start + loc1*nd.OffsetStep[0] + loc2*nd.OffsetStep[1] && nd.Start + loc1*nd.OffsetStep[0] + loc2*nd.OffsetStep[1] < len(nd.Impl)
+//@   assigns nothing
+//@   ensures [C01.get2-address] r == nd.Impl[nd.Start + loc1*nd.OffsetStep[0] + loc2*nd.OffsetStep[1]]
+
+//@ func (*nd{t}).Set3(nd, loc1, loc2, loc3, val)
+//@   safety C01
+//@   requires len(nd.OffsetStep) >= 3
+//@   requires 0 <= nd.Start + loc1*nd.OffsetStep[0] + loc2*nd.OffsetStep[1] + loc3*nd.OffsetStep[2] && nd.Start + loc1*nd.OffsetStep[0] + loc2*nd.OffsetStep[1] + loc3*nd.OffsetStep[2] < len(nd.Impl)
+//@   assigns nd.Impl[*]
+//@   ensures [C01.set3-footprint] nd.Impl[nd.Start + loc1*nd.OffsetStep[0] + loc2*nd.OffsetStep[1] + loc3*nd.OffsetStep[2]] == val && forall(p, 0, len(nd.Impl), implies(p != nd.Start + loc1*nd.OffsetStep[0] + loc2*nd.OffsetStep[1] + loc3*nd.OffsetStep[2], nd.Impl[p] == old(nd.Impl[p])))
+
+//@ func (*nd{t}).Get3(nd, loc1, loc2, loc3) returns (r)
+//@   safety C01
+//@   requires len(nd.OffsetStep) >= 3
+//@   requires 0 <= nd.Start + loc1*nd.OffsetStep[0] + loc2*nd.OffsetStep[1] + loc3*nd.OffsetStep[2] && nd.Start + loc1*nd.OffsetStep[0] + loc2*nd.OffsetStep[1] + loc3*nd.OffsetStep[2] < len(nd.Impl)
+//@   assigns nothing
+//@   ensures [C01.get3-address] r == nd.Impl[nd.Start + loc1*nd.OffsetStep[0] + loc2*nd.OffsetStep[1] + loc3*nd.OffsetStep[2]]
